@@ -86,3 +86,14 @@ Definition http_range (flen : Z) (s : rspec) : Z * Z * Z :=
 
 (* the FUSE handle: Seek(o) then io.ReadFull of n bytes, end of file not being an error *)
 Definition fuse_read (flen o n : Z) : Z := Z.min n (Z.max 0 (flen - o)).
+
+(* the handle of fuse.go under its semaphore: reads are served one after the other, in any order *)
+(* one read of the handle, from whatever state the reader is in: Seek(o), then ReadFull of n bytes *)
+Definition fuse_op (psize total : Z) (r : rdr) (op : Z * Z) : list (Z * Z) * rdr :=
+  read_n (Z.to_nat (snd op)) (snd op) psize total (fst (rd_seek r (fst op) SeekStart)) (snd op).
+Fixpoint fuse_ops (psize total : Z) (r : rdr) (ops : list (Z * Z)) : list (list (Z * Z)) :=
+  match ops with
+  | [] => []
+  | op :: rest => let (l, r') := fuse_op psize total r op in l :: fuse_ops psize total r' rest
+  end.
+
